@@ -138,8 +138,14 @@ def exec (st : HState) (toks : List String) : Option HState :=
       | none, _ => none            -- empty receiver: outside the modelled domain
       | _, none => some st
       | some l, some f =>
-        let join := if eOfV l ≠ sOfV f then [[eOfV l, sOfV f]] else []
-        some (doStep st i p (Op.appendVals (join ++ v2')))
+        -- `Point.__eq__`: both coordinates within 1e-9 relative; equal-within-tolerance starts are moved onto the receiver's end (F24)
+        let close (a b : ℚ) : Bool := decide (|a - b| ≤ (1 : ℚ) / 1000000000 * max |a| |b|)
+        let same : Bool := close (eOfV l).1 (sOfV f).1 && close (eOfV l).2 (sOfV f).2
+        let snapped := match v2' with
+          | (_ :: restPts) :: more => (eOfV l :: restPts) :: more
+          | other => other
+        let ext := if same then snapped else [eOfV l, sOfV f] :: v2'
+        some (doStep st i p (Op.appendVals ext))
   | ["clone", h] => do
       let (_, p) ← getPath st h
       let r := clone st.heap p
